@@ -53,7 +53,7 @@ BumpDirs(v, id) == [e \in DOMAIN v |-> IF e.k = "dir" /\ e.id \in Ancestors(id) 
 EmptyEnv(src0, dirs0) ==
     [cache |-> [k \in Keys |-> None], src |-> src0, dirs |-> dirs0, baddirs |-> [d \in {} |-> "x"],
      hasR |-> HasReloader, msgs |-> <<>>, gen |-> 1, nread |-> 0, nrdir |-> 0, nldr |-> 0,
-     fault |-> None, dropped |-> {}, reads |-> <<>>, fixGoi |-> FixGoi, unrec |-> {}, stale |-> {}, fhit |-> FALSE, taint |-> {}]
+     fault |-> None, dropped |-> {}, reads |-> <<>>, fixGoi |-> FixGoi, unrec |-> {}, looked |-> {}, track |-> FALSE, stale |-> {}, fhit |-> FALSE, taint |-> {}]
 
 -----------------------------------------------------------------------------
 RECURSIVE DrainMsgs(_, _, _)
@@ -85,15 +85,26 @@ ReloadOne(E, g, d) ==
 (* `od`: the outcome depends on an order the code does not promise and the    *)
 (* property does not constrain: a reload looked an asset of the same pass up   *)
 (* inside no_record, or a fault is armed while the pass has unordered members. *)
-RECURSIVE PassLoop(_, _, _, _, _, _, _)
-PassLoop(E, g, order, i, flag, oflag, g0) ==
-    IF i > Len(order) THEN [E |-> E, g |-> g, d8 |-> flag, od |-> oflag]
-    ELSE LET r == ReloadOne([E EXCEPT !.unrec = {}], g, order[i])
+(* also `od`: a member first-loads (or inserts) a key whose presence another member observes with   *)
+(* get / contains / get_or_insert, and the graph of the pass start orders neither before the other: *)
+(* the observer sees the key or not, depending on the iteration order of the real sort.             *)
+RacyBirth(acc, g0) ==
+    \E i, j \in 1..Len(acc) :
+        /\ i # j /\ (acc[i].born \cap acc[j].looked) # {}
+        /\ acc[i].m \notin DepClosure(g0, {acc[j].m}, {})
+        /\ acc[j].m \notin DepClosure(g0, {acc[i].m}, {})
+
+RECURSIVE PassLoop(_, _, _, _, _, _, _, _)
+PassLoop(E, g, order, i, flag, oflag, g0, acc) ==
+    IF i > Len(order) THEN [E |-> [E EXCEPT !.looked = {}, !.track = FALSE], g |-> g, d8 |-> flag, od |-> oflag \/ RacyBirth(acc, g0)]
+    ELSE LET r == ReloadOne([E EXCEPT !.unrec = {}, !.looked = {}, !.track = TRUE], g, order[i])
              inPass == {order[j] : j \in 1..Len(order)} \ {order[i]}
              before == DepClosure(g0, {order[i]}, {})
              risky == r.ok /\ ((r.deps \cap inPass) \ before) # {}
              blind == (r.E.unrec \cap inPass) # {}
-         IN PassLoop(r.E, r.g, order, i + 1, flag \/ risky, oflag \/ blind, g0)
+             born == {k \in DOMAIN E.cache : E.cache[k] = None /\ r.E.cache[k] # None}
+         IN PassLoop(r.E, r.g, order, i + 1, flag \/ risky, oflag \/ blind, g0,
+                     Append(acc, [m |-> order[i], born |-> born, looked |-> r.E.looked]))
 
 Unordered(g, S) == \E a \in S, b \in S : a # b /\ a \notin DepClosure(g, {b}, {}) /\ b \notin DepClosure(g, {a}, {})
 
@@ -101,7 +112,7 @@ Unordered(g, S) == \E a \in S, b \in S : a # b /\ a \notin DepClosure(g, {b}, {}
 RunPass(E, g, changed) ==
     LET aff == Affected(g, changed)
         order == TopoOrderBy(g, aff, <<>>, OrderFirst) IN
-    PassLoop(E, g, order, 1, FALSE, E.fault # None /\ Unordered(g, aff), g)
+    PassLoop(E, g, order, 1, FALSE, E.fault # None /\ Unordered(g, aff), g, <<>>)
 
 -----------------------------------------------------------------------------
 Init ==
